@@ -171,6 +171,13 @@ where
             .max(self.glwe_trace_tmp_bytes(res_infos, res_infos, &cbt_infos.atk_infos()))
             .max(self.ggsw_from_gglwe_tmp_bytes(res_infos, &cbt_infos.tsk_infos()))
             + GLWE::<Vec<u8>>::bytes_of_from_infos(res_infos)
+            + GLWE::<Vec<u8>>::bytes_of_from_infos(&cbt_infos.brk_infos())
+            + GLWE::<Vec<u8>>::bytes_of(
+                res_infos.n(),
+                cbt_infos.atk_infos().base2k(),
+                cbt_infos.brk_infos().k,
+                res_infos.rank(),
+            )
             + GGLWE::bytes_of_from_infos(&gglwe_infos)
     }
 
